@@ -618,13 +618,13 @@ def matrix_scenario(Wm, kind, rng, labels=None, max_k=2, min_k=1, queries=None, 
     }
 
 
-def tlc_matrices(rep, n, maxw):
-    cfg = "SPECIFICATION GSpec\nCONSTANTS N = %d MaxW = %d MaxK = 1\nCONSTRAINT Export\nCHECK_DEADLOCK FALSE\n" % (n, maxw)
-    res = H.run_tlc("KnnGen", cfg, workers=1, timeout=600, tag="knngen-%d-%d" % (n, maxw))
+def tlc_matrices(rep, n, maxw, directed=False):
+    cfg = "SPECIFICATION GSpec\nCONSTANTS N = %d MaxW = %d MaxK = 1 Directed = %s\nCONSTRAINT Export\nCHECK_DEADLOCK FALSE\n" % (n, maxw, "TRUE" if directed else "FALSE")
+    res = H.run_tlc("KnnGen", cfg, workers=1, timeout=600, tag="knngen-%d-%d%s" % (n, maxw, "d" if directed else ""))
     ms = [p[1] for p in res.prints if p and p[0] == "SCN"]
     if len(ms) != res.distinct:
         raise H.MachineryError("KnnGen export incomplete: %d of %d" % (len(ms), res.distinct))
-    rep.add_tlc("KnnGen N=%d MaxW=%d" % (n, maxw), res, kind="scenario-enumeration")
+    rep.add_tlc("KnnGen N=%d MaxW=%d%s" % (n, maxw, " directed" if directed else ""), res, kind="scenario-enumeration")
     return ms
 
 
